@@ -106,13 +106,11 @@ ModelRec(r) ==
       tk(i) == [i |-> i - 1, ty |-> F.toks[i].ty, ch |-> F.toks[i].ch,
                 c |-> F.toks[i].c, ec |-> endc(i), b |-> r.cb[F.toks[i].c + 1], eb |-> r.cb[endc(i) + 1],
                 pk |-> F.toks[i].pk, ps |-> F.toks[i].ps, pe |-> F.toks[i].pe]
-  IN [id |-> r.id, ok |-> F.fault = "", budget_exceeded |-> FALSE, mfault |-> F.fault,
-      cs |-> r.cs, cc |-> r.cc, cw |-> r.cw, cb |-> r.cb, bom |-> r.bom, len |-> r.len,
-      toks |-> [i \in 1..n |-> tk(i)],
+  IN [ok |-> F.fault = "", budget_exceeded |-> FALSE, panic |-> "", mfault |-> F.fault, events |-> <<>>,
+      toks |-> [i \in 1..n |-> tk(i)], ntoks |-> n,
       errs |-> [i \in 1..Len(F.errs) |-> [k |-> F.errs[i].k, c |-> F.errs[i].c, b |-> r.cb[F.errs[i].c + 1], lt |-> F.errs[i].lt]],
-      at_eof |-> [modes |-> E.modes, ck |-> [set |-> E.ck.set], nest |-> E.nest,
-                  pend |-> E.pend, lt |-> LastTy(E)],
-      litlen |-> F.nlit]
+      at_eof |-> [modes |-> E.modes, ck |-> [set |-> E.ck.set], nest |-> E.nest, pend |-> E.pend, lt |-> LastTy(E)],
+      litlen |-> F.nlit] @@ r      \* everything else (text, position tables, generator expectations) as recorded
 \* final results of model and implementation agree (tokens: type, channel, start, payload kind and range; errors: kind, position)
 M_same_toks(r) ==
   LET m == ModelRec(r) IN
